@@ -113,17 +113,19 @@ func genReplCase(r *rand.Rand) *jReplCase {
 	if r.Intn(3) == 0 {
 		c.L = 2
 	}
-	switch r.Intn(5) {
+	switch r.Intn(7) {
 	case 0:
 		c.PartBy = nil
 	case 1:
 		c.PartBy = []string{"d1"}
 	case 2:
 		c.PartBy = []string{"d2"}
-	case 3:
-		c.PartBy = []string{"d2", "d1"}
-	case 4:
+	case 3, 4:
+		c.PartBy = []string{"d2", "d1"} // declared in non-alphabetical order
+	case 5:
 		c.PartBy = []string{"d3", "d9"}
+	case 6:
+		c.PartBy = []string{"d3", "d1"}
 	}
 	switch r.Intn(3) {
 	case 0:
